@@ -4,6 +4,7 @@ import Rare.Model.C06Tree
 import Rare.Model.C06ErrTrace
 import Rare.Drv.C04
 import Rare.Model.C06Read
+import Rare.Model.C06Inflate
 /-!
 Line protocol of C06.
 
@@ -271,6 +272,13 @@ def handle : List String → String
       | .err .eof => "err eof"
       | .err .unexpectedEOF => "err ueof"
       | .err .header => "err header"
+    | none => "bad-args"
+  | ["gunzip", c] =>
+    match Hex.dec c with
+    | some c =>
+      match Rare.C06.Gz.gunzip c with
+      | none => "nohdr"
+      | some (d, fails) => s!"ok {Hex.enc d} {if fails then 1 else 0}"
     | none => "bad-args"
   | ["exit", re, hasAgg, pe, m] =>
     match nat? re, bool? hasAgg, nat? pe, nat? m with
